@@ -430,9 +430,25 @@ def _atomic_data_store(ctx, repo, flow):
                 continue
             raise AnalysisError("anchor missing: _SktimeForecaster.%s" % mname)
         g = flow.cfg(fn)
-        stores = [n for n in g.nodes if isinstance(n.stmt, (ast.Assign, ast.AugAssign)) and any(
+
+        def _stores_data(f_, depth=2, seen=()):
+            """``f_`` (or an own method it calls) writes self._y / self._X."""
+            for x in astq.walk_no_nested(f_):
+                if astq.is_self_attr(x) and isinstance(x.ctx, ast.Store) and x.attr in ("_y", "_X"):
+                    return True
+            if depth > 0:
+                for c_ in astq.calls(f_):
+                    if isinstance(c_.func, ast.Attribute) and dotted(c_.func.value) == "self" and c_.func.attr not in seen:
+                        h_ = repo.lookup_method(sk, c_.func.attr)
+                        if h_ and h_[1] is not f_ and _stores_data(h_[1], depth - 1, seen + (c_.func.attr,)):
+                            return True
+            return False
+        stores = [n for n in g.nodes if (isinstance(n.stmt, (ast.Assign, ast.AugAssign)) and any(
             astq.is_self_attr(x) and isinstance(x.ctx, ast.Store) and x.attr in ("_y", "_X")
-            for t in (n.stmt.targets if isinstance(n.stmt, ast.Assign) else [n.stmt.target]) for x in ast.walk(t))]
+            for t in (n.stmt.targets if isinstance(n.stmt, ast.Assign) else [n.stmt.target]) for x in ast.walk(t)))
+            or any(isinstance(c_.func, ast.Attribute) and dotted(c_.func.value) == "self" and c_.func.attr != mname
+                   and (repo.lookup_method(sk, c_.func.attr) or (None, None))[1] is not None
+                   and _stores_data(repo.lookup_method(sk, c_.func.attr)[1]) for c_ in n.calls())]
 
         def rejecting(m):
             if isinstance(m.stmt, ast.Raise):
@@ -655,9 +671,14 @@ def rule_R2(ctx, repo):
         pc = PathConditions(fn, at)
         spec = conj(neg(atom("isnone(x)")), disj(neg(atom("is_int(x)")), atom("lt(x, 1)")))
         ok, wit = equivalent(pc.raises, spec)
+        rets = astq.returns(fn)
+        delegates = pc.raises == FALSE and bool(rets) and all(isinstance(r.value, ast.Call) for r in rets)
+        if delegates:
+            # the whole validation is handed to another helper: the witness-table oracle (R2 oracle:<fn>) evaluates the composition
+            ctx.info("R2 %s: validation delegated to `%s`; decided by the witness table" % (fname, ast.unparse(rets[0].value)[:60]))
+            continue
         ctx.check(ok, "R2", fname + ":predicate", "rejects iff x is not None and (not is_int(x) or x < 1)",
                   "%s rejects iff %s (expected %s; differing assignment %s)" % (fname, show(pc.raises), show(spec), wit), ctx.loc(mod, fn))
-        rets = astq.returns(fn)
         ok = bool(rets) and all(dotted(r.value) == pname for r in rets) and not astq.assigned_in(fn, pname)
         ctx.check(ok, "R2", fname + ":identity", "returns its argument unchanged", "%s does not return its argument unchanged" % fname, ctx.loc(mod, fn))
     # check_sp with enforce_list=False
